@@ -38,6 +38,12 @@ BOfSeq(s) == [x \in {s[i] : i \in DOMAIN s} |-> Cardinality({i \in DOMAIN s : s[
 Retained(L) == FoldSet(LAMBDA h, acc : acc + BSize(L[h]), 0, DOMAIN L)
 Pow2(h) == 2 ^ h
 
+\* counts beyond TLC's 32-bit integers (n >= 2^32 is reachable by merge doublings) are pairs <<lo, hi>> of limbs,
+\* value = lo + hi * 2^24
+WB == 16777216
+WNorm(lo, hi) == <<lo % WB, hi + lo \div WB>>
+WAdd(a, b) == WNorm(a[1] + b[1], a[2] + b[2])
+
 Fresh(k, dim) == [k |-> k, dim |-> dim, n |-> 0, lev |-> <<EmptyB>>, est |-> FALSE, inp |-> EmptyB]
 
 \* the clauses of the statement that constrain a reachable state
